@@ -31,6 +31,8 @@ func (n *pnode) String() string {
 	switch n.op {
 	case "src", "slice", "chan":
 		fmt.Fprintf(&b, "%v", n.items)
+	case "ictx":
+		fmt.Fprintf(&b, "%v[cancels the call's context at %d]", n.items, n.m)
 	case "counter", "first", "chunk", "chunkflat", "flatmap":
 		fmt.Fprintf(&b, "[%d]", n.n)
 	case "repeat":
@@ -198,6 +200,12 @@ func (g *pgen) leaf() *pnode {
 		case 6:
 			return &pnode{op: "empty"}
 		case 7:
+			if g.allowGo && r.Choose(2, "ictx") == 1 {
+				// an iterator (behind FromIterator) that cancels the consumer's per-call context
+				// from inside its own Next, at one position
+				it := g.items()
+				return &pnode{op: "ictx", items: it, m: r.Choose(len(it)+1, "ictx-at")}
+			}
 			return &pnode{op: "chan", items: g.items()}
 		}
 		if g.nsrc >= g.maxSrc {
@@ -355,7 +363,7 @@ func mBuild(n *pnode, e *mEnv, errAt map[int]int, errs map[int]error, endAt map[
 		}
 		e.srcs[n.id] = s
 		return s
-	case "slice", "chan":
+	case "slice", "chan", "ictx":
 		return &mSrc{items: n.items, errAt: -1, endAt: -1}
 	case "counter":
 		items := make([]int, 0)
